@@ -1,6 +1,7 @@
 package main
 
 import (
+	"bytes"
 	"encoding/json"
 	"fmt"
 	"os"
@@ -42,7 +43,7 @@ var props = map[string]*propCfg{
 		DesignRef:   "DESIGN.md §4 C01",
 	},
 	"C03": {
-		Rule: "Cases: FMA triples built so that u lies within +-(p+3) digits of the product's leading digit, far below / far above it (sticky only), u = -(x*y rounded to k digits) for random k (cancellation leaving 0..all digits, incl. exactly zero sums), sums constructed to land on ties and all-nines carries, zero products and zero addends of both signs, infinities, products at both ends of the exponent range; x 15 sharing patterns of {z,x,y,u} (45% distinct variables) x precision x six modes. Judged by both oracle models on the exact x*y+u (value and accuracy), plus: receiver attributes unchanged, operands not sharing the receiver unmodified. Non-trivial = single rounding differs from Mul-then-Add by the oracle (value or accuracy); distinct = hashes of (operands, precision, mode, sharing pattern).",
+		Rule:        "Cases: FMA triples built so that u lies within +-(p+3) digits of the product's leading digit, far below / far above it (sticky only), u = -(x*y rounded to k digits) for random k (cancellation leaving 0..all digits, incl. exactly zero sums), sums constructed to land on ties and all-nines carries, zero products and zero addends of both signs, infinities, products at both ends of the exponent range; x 15 sharing patterns of {z,x,y,u} (45% distinct variables) x precision x six modes. Judged by both oracle models on the exact x*y+u (value and accuracy), plus: receiver attributes unchanged, operands not sharing the receiver unmodified. Non-trivial = single rounding differs from Mul-then-Add by the oracle (value or accuracy); distinct = hashes of (operands, precision, mode, sharing pattern).",
 		Assumptions: []string{"gap between the exact product and u capped like C01's addend gap", "operands sharing the receiver are given values that fit the receiver's precision (otherwise they could not be that variable)", "cases whose exact product x*y leaves the exponent range are known finding D15 (predicate fma_product_exponent_out_of_range) and reported as such"},
 		Floors:      []floor{{"FMA/u-near", 5000}, {"FMA/cancel", 5000}, {"FMA/cancel-to-zero", 1000}, {"FMA/zeros", 1000}, {"FMA/infinities", 1000}, {"FMA/sum-aimed", 2000}, {"shape/z=u", 500}, {"shape/z=x=y=u", 500}, {"fma_differs_from_mul_then_add", 2000}},
 		LevelText:   "Runtime monitoring of FMA against the exact x*y+u in big integers under all 15 sharing patterns; evidence counts how many cases the single rounding actually mattered.",
@@ -50,7 +51,7 @@ var props = map[string]*propCfg{
 		DesignRef:   "DESIGN.md §4 C03",
 	},
 	"C05": {
-		Rule: "Cases: perfect squares s^2 (s of 1..80 digits, some to 1 500) and s^2+-1, at receiver precision digits(s)+{-3,-1,0,1,2,20}; roots that are exactly a rounding midpoint ((m+1/2)^2) or lie a few units of a far lower place beside a midpoint or beside a representable value; odd and even exponents (incl. negative odd), exponents at both ends of the int32 range; random x with more / as many / fewer digits than the receiver; Sqrt(+0), Sqrt(-0), Sqrt(+Inf) for every mode; 25% with the receiver being the operand. Oracle: integer square root in big.Int + sticky, rounded once (model #1) and the definition check s^2 vs x on candidate neighbours (model #2). After the call the receiver's precision and mode must be what they were and a distinct operand must be bit-identical. Non-trivial = the exact root is not representable at the receiver's precision; distinct = hashes of (x, precision, mode, sharing).",
+		Rule:        "Cases: perfect squares s^2 (s of 1..80 digits, some to 1 500) and s^2+-1, at receiver precision digits(s)+{-3,-1,0,1,2,20}; roots that are exactly a rounding midpoint ((m+1/2)^2) or lie a few units of a far lower place beside a midpoint or beside a representable value; odd and even exponents (incl. negative odd), exponents at both ends of the int32 range; random x with more / as many / fewer digits than the receiver; Sqrt(+0), Sqrt(-0), Sqrt(+Inf) for every mode; 25% with the receiver being the operand. Oracle: integer square root in big.Int + sticky, rounded once (model #1) and the definition check s^2 vs x on candidate neighbours (model #2). After the call the receiver's precision and mode must be what they were and a distinct operand must be bit-identical. Non-trivial = the exact root is not representable at the receiver's precision; distinct = hashes of (x, precision, mode, sharing).",
 		Assumptions: []string{"operand lengths are capped at 700 digits quick / 3 000 thorough (Newton iteration cost)", "Acc() after Sqrt is not part of the statement and is not judged"},
 		Floors:      []floor{{"Sqrt/perfect-square", 3000}, {"Sqrt/root-is-tie", 3000}, {"Sqrt/root-just-above-tie", 2000}, {"Sqrt/root-just-below-tie", 2000}, {"Sqrt/root-just-above-representable", 2000}, {"Sqrt/root-just-below-representable", 2000}, {"Sqrt/special", 50}, {"mode/ToNegativeInf", 5000}, {"mode/AwayFromZero", 5000}},
 		LevelText:   "Runtime monitoring of Sqrt against the integer square root with cases constructed at the rounding boundaries (exact ties, perfect squares, neighbours one unit of a far lower place away), where an approximate Newton result is wrong.",
@@ -58,7 +59,7 @@ var props = map[string]*propCfg{
 		DesignRef:   "DESIGN.md §4 C05",
 	},
 	"C04": {
-		Rule: "Part 1 (exhaustive): the class table {-Inf,-fin,-0,+0,+fin,+Inf}^k is enumerated completely: 36 cells x {Add,Sub,Mul,Quo} x 6 modes x 4 magnitude variants (1-word, 3-word, 120-word finite operands; equal magnitudes so that exact zero sums occur) x {fresh receiver, z=x}; 216 FMA cells x 6 modes x 4 variants over the 15 sharing patterns; 6 Sqrt cells x 6 modes x 3 sizes x {fresh, z=x} = 9 288 cells. Expected class and sign come from the float64 hardware (x+y, x-y, x*y, x/y, math.FMA, math.Sqrt on class representatives; NaN <=> must panic with ErrNaN) with the -0-under-ToNegativeInf rule applied on top, cross-checked against the modelled rules (disagreement = inconclusive); after an ErrNaN panic the receiver must pass the representation-invariant walker. Part 2 (panic hunt): 38 groups of public operations (arithmetic incl. 100..220-word divisors with adversarial words and exact recursive divisions, Karatsuba-sized products and squares, Sqrt, all setters incl. int64-extreme exponents, raw SetBitsExp incl. precision-0 receivers, all getters and conversions, every Text/fmt format, Parse/SetString/ParseDecimal/UnmarshalText/Scan/JSON on literals and token soup in every legal base, Gob of valid values) called on valid arguments under recover(): any panic value that is not ErrNaN, an ErrNaN on a valid call, or a missing ErrNaN on an invalid one is a violation. All table cells are non-trivial; hunt cases count as distinct by construction (fresh PRNG draw per case).",
+		Rule:        "Part 1 (exhaustive): the class table {-Inf,-fin,-0,+0,+fin,+Inf}^k is enumerated completely: 36 cells x {Add,Sub,Mul,Quo} x 6 modes x 4 magnitude variants (1-word, 3-word, 120-word finite operands; equal magnitudes so that exact zero sums occur) x {fresh receiver, z=x}; 216 FMA cells x 6 modes x 4 variants over the 15 sharing patterns; 6 Sqrt cells x 6 modes x 3 sizes x {fresh, z=x} = 9 288 cells. Expected class and sign come from the float64 hardware (x+y, x-y, x*y, x/y, math.FMA, math.Sqrt on class representatives; NaN <=> must panic with ErrNaN) with the -0-under-ToNegativeInf rule applied on top, cross-checked against the modelled rules (disagreement = inconclusive); after an ErrNaN panic the receiver must pass the representation-invariant walker. Part 2 (panic hunt): 38 groups of public operations (arithmetic incl. 100..220-word divisors with adversarial words and exact recursive divisions, Karatsuba-sized products and squares, Sqrt, all setters incl. int64-extreme exponents, raw SetBitsExp incl. precision-0 receivers, all getters and conversions, every Text/fmt format, Parse/SetString/ParseDecimal/UnmarshalText/Scan/JSON on literals and token soup in every legal base, Gob of valid values) called on valid arguments under recover(): any panic value that is not ErrNaN, an ErrNaN on a valid call, or a missing ErrNaN on an invalid one is a violation. All table cells are non-trivial; hunt cases count as distinct by construction (fresh PRNG draw per case).",
 		Assumptions: []string{"valid arguments = non-nil pointers, legal bases, words below the base, Int/Rat/Text('f') only at |exponent| <= 3 000 and Float at <= 20 000 (they materialise 10^|exp|), addend gaps capped", "a precision-0 receiver is a valid receiver for every setter including SetBitsExp"},
 		Floors:      []floor{{"table/", 9288}, {"invalid_operation_cells", 500}, {"hunt/Quo", 2000}, {"hunt/Parse", 2000}, {"hunt/SetBitsExp", 500}, {"hunt/SetFloat", 500}, {"hunt_ErrNaN_panics", 50}},
 		LevelText:   "Exhaustive enumeration of the finite class table against the float64 hardware plus a recover()-instrumented hunt over every public entry point with operand sizes that reach the deep multi-word paths.",
@@ -120,6 +121,22 @@ func writeManifest() {
 	for _, x := range side.NotApplicable {
 		if id, _ := x["property_id"].(string); props[id] == nil {
 			na = append(na, x)
+		}
+	}
+	// every property of properties.jsonl that has no check and no hand-written reason is listed as not built
+	if pb, err := os.ReadFile(filepath.Join(verifDir, "properties.jsonl")); err == nil {
+		listed := map[string]bool{}
+		for _, x := range na {
+			id, _ := x["property_id"].(string)
+			listed[id] = true
+		}
+		for _, line := range bytes.Split(pb, []byte("\n")) {
+			var p struct {
+				ID string `json:"id"`
+			}
+			if json.Unmarshal(line, &p) == nil && p.ID != "" && props[p.ID] == nil && !listed[p.ID] {
+				na = append(na, map[string]interface{}{"property_id": p.ID, "reason": "runtime-monitoring check designed (DESIGN.md section 4) but not built yet in this snapshot; no claim is made"})
+			}
 		}
 	}
 	m := map[string]interface{}{
